@@ -145,8 +145,8 @@ theorem verifyMerkleProof_ok_iff (env : Env) (p : Proof) (consRoot contract comm
 theorem accept_iff (env : Env) (cs : ClientState) (store : ConsStore) (h : Height) (proof : ProofArg)
     (k : PathKind) (src dst : Bytes) (seq : UInt64) (value : Bytes) :
     verify env cs store h proof k src dst seq value = .ok () ↔
-      ∃ p consRoot, proof = .parsed p ∧ store.get h = some (.root consRoot) ∧ HeightRule cs h ∧
-        MerkleOk env p consRoot cs.contract value (slotOf env k src dst seq) := by
+      ∃ p cons, proof = .parsed p ∧ store.get h = some (.state cons) ∧ HeightRule cs h ∧
+        MerkleOk env p cons.root cs.contract value (slotOf env k src dst seq) := by
   rw [← heightGuards_iff]
   unfold verify heightGuards
   by_cases h1 : cs.head.lt h = true
@@ -165,8 +165,8 @@ theorem accept_iff (env : Env) (cs : ClientState) (store : ConsStore) (h : Heigh
         | some e =>
           cases e with
           | corrupt => simp
-          | root consRoot =>
-            simp only [Option.some.injEq, ConsEntry.root.injEq, exists_eq_left']
+          | state cons =>
+            simp only [Option.some.injEq, ConsEntry.state.injEq, exists_eq_left']
             by_cases h3 : cs.head.rh - h.rh < cs.delayBlock
             · simp [h3]
             · simp only [h3, ↓reduceIte, not_false_eq_true, true_and]
@@ -204,8 +204,8 @@ theorem binds {env : Env} {sem : Bytes → Bytes → Option Bytes} (hs : MptSoun
     {cs : ClientState} {store : ConsStore} {h : Height} {proof : ProofArg}
     {k : PathKind} {src dst : Bytes} {seq : UInt64} {value : Bytes}
     (hacc : verify env cs store h proof k src dst seq value = .ok ()) :
-    ∃ consRoot, store.get h = some (.root consRoot) ∧ HeightRule cs h ∧
-      StateHolds env sem (bytesToHash consRoot) cs.contract (slotOf env k src dst seq) value := by
+    ∃ cons, store.get h = some (.state cons) ∧ HeightRule cs h ∧
+      StateHolds env sem (bytesToHash cons.root) cs.contract (slotOf env k src dst seq) value := by
   obtain ⟨p, consRoot, _, hst, hh, haddr, hacct, sp, raw, t, _, hkey, hstor, hdec, hpad⟩ := (accept_iff ..).mp hacc
   refine ⟨consRoot, hst, hh, hexToHash p.nonce, hexToHash p.balance, hexToHash p.storageHash, hexToHash p.codeHash,
     hexToHash_length _, hexToHash_length _, ?_, raw, t, ?_, hdec, hpad⟩
@@ -218,8 +218,8 @@ theorem binds {env : Env} {sem : Bytes → Bytes → Option Bytes} (hs : MptSoun
 theorem rejected_unless_state_holds {env : Env} {sem : Bytes → Bytes → Option Bytes} (hs : MptSound env sem)
     (cs : ClientState) (store : ConsStore) (h : Height) (proof : ProofArg)
     (k : PathKind) (src dst : Bytes) (seq : UInt64) (value : Bytes)
-    (hno : ∀ consRoot, store.get h = some (.root consRoot) →
-      ¬ StateHolds env sem (bytesToHash consRoot) cs.contract (slotOf env k src dst seq) value) :
+    (hno : ∀ cons, store.get h = some (.state cons) →
+      ¬ StateHolds env sem (bytesToHash cons.root) cs.contract (slotOf env k src dst seq) value) :
     verify env cs store h proof k src dst seq value ≠ .ok () := by
   intro hacc
   obtain ⟨consRoot, hst, _, hh⟩ := binds hs hacc
@@ -310,10 +310,10 @@ theorem absent_key_rejected (env : Env) (cs : ClientState) (store : ConsStore) (
   storage_not_proven_rejected env cs store h p sp k src dst seq value hsp (by intro v; rw [habs]; simp)
 
 /-- the same for the account: an absence proof (or a failing proof) for `keccak(address)` is rejected -/
-theorem absent_account_rejected (env : Env) (cs : ClientState) (store : ConsStore) (h : Height) (p : Proof) (consRoot : Bytes)
+theorem absent_account_rejected (env : Env) (cs : ClientState) (store : ConsStore) (h : Height) (p : Proof) (consRoot : ConsState)
     (k : PathKind) (src dst : Bytes) (seq : UInt64) (value : Bytes)
-    (hst : store.get h = some (.root consRoot))
-    (habs : ∀ v, env.mpt (bytesToHash consRoot) (env.keccak (fromHex p.address)) (p.accountProof.map fromHex) ≠ .value v) :
+    (hst : store.get h = some (.state consRoot))
+    (habs : ∀ v, env.mpt (bytesToHash consRoot.root) (env.keccak (fromHex p.address)) (p.accountProof.map fromHex) ≠ .value v) :
     verify env cs store h (.parsed p) k src dst seq value ≠ .ok () := by
   intro hacc
   obtain ⟨p', consRoot', hp, hst', _, _, hacct, _⟩ := (accept_iff ..).mp hacc
@@ -350,6 +350,16 @@ theorem later_revision_rejected (env : Env) (cs : ClientState) (store : ConsStor
   rcases (delay_gate hacc).1 with e | l
   · rw [e] at hbad; exact absurd hbad (UInt64.lt_irrefl _)
   · exact absurd (UInt64.lt_trans hbad l) (UInt64.lt_irrefl _)
+
+/-- **inner_height_irrelevant.** The `Height` (and `Timestamp`) field *inside* the stored consensus state plays no
+    role: only the key it is stored under (the proof height) and its root do. In particular the confirmation rule of
+    `accept_iff` / `delay_gate` is about the proof height for ANY inner field value (omitted = 0-0, above the head, …). -/
+theorem inner_height_irrelevant (env : Env) (cs : ClientState) (rest : ConsStore) (h : Height) (c : ConsState)
+    (ts : UInt64) (ih : Height) (proof : ProofArg) (k : PathKind) (src dst : Bytes) (seq : UInt64) (value : Bytes) :
+    verify env cs ((h, .state { c with timestamp := ts, height := ih }) :: rest) h proof k src dst seq value
+      = verify env cs ((h, .state c) :: rest) h proof k src dst seq value := by
+  unfold verify
+  simp [ConsStore.get]
 
 /-- The two guards of the code *before* the fix `C08-delay-underflow-cross-revision` (`Height.LT`, then the `uint64`
     subtraction) do not imply the height rule: with the head in a later revision the subtraction wraps. This is the
@@ -530,14 +540,15 @@ def toyEnv : Env :=
     mpt := fun root key _ => match toySem root key with | some v => .value v | none => .absent }
 
 def toyCs : ClientState := { kind := .bsc, head := ⟨0, 120⟩, contract := [0xab], blockDelay := 0, nValidators := 21 }
-def toyStore : ConsStore := [(⟨0, 100⟩, .root [0x01]), (⟨0, 110⟩, .corrupt)]
+/-- the stored state carries an inner `Height` of 0-0 (as after `CreateClient` with the field omitted) -/
+def toyStore : ConsStore := [(⟨0, 100⟩, .state ⟨7, ⟨0, 0⟩, [0x01]⟩), (⟨0, 110⟩, .corrupt)]
 def toyValue : Bytes := leftPad32 [0x05]
 
 /-- accepted: BSC client with 21 validators (11 confirmation blocks), head 120, proof height 100 -/
 theorem toy_accepted : verify toyEnv toyCs toyStore ⟨0, 100⟩ (.parsed toyProof) .commitment [] [] 0 toyValue = .ok () := by decide
 
 /-- too recent: height 110 has only 10 confirmations -/
-example : verify toyEnv toyCs ((⟨0, 110⟩, .root [0x01]) :: toyStore) ⟨0, 110⟩ (.parsed toyProof) .commitment [] [] 0 toyValue
+example : verify toyEnv toyCs ((⟨0, 110⟩, .state ⟨7, ⟨0, 0⟩, [0x01]⟩) :: toyStore) ⟨0, 110⟩ (.parsed toyProof) .commitment [] [] 0 toyValue
     = .err "delay" := by decide
 
 /-- a `null` storage proof element panics (nil pointer dereference in the Go code) -/
@@ -552,8 +563,8 @@ theorem toyEnv_sound : MptSound toyEnv toySem := by
   | some w => rw [hs] at h; simp at h; rw [h]
 
 /-- `binds` applied: the hypotheses are satisfiable and the conclusion is about a non-trivial state -/
-example : ∃ consRoot, toyStore.get ⟨0, 100⟩ = some (.root consRoot) ∧ HeightRule toyCs ⟨0, 100⟩ ∧
-    StateHolds toyEnv toySem (bytesToHash consRoot) toyCs.contract (slotOf toyEnv .commitment [] [] 0) toyValue :=
+example : ∃ cons, toyStore.get ⟨0, 100⟩ = some (.state cons) ∧ HeightRule toyCs ⟨0, 100⟩ ∧
+    StateHolds toyEnv toySem (bytesToHash cons.root) toyCs.contract (slotOf toyEnv .commitment [] [] 0) toyValue :=
   binds toyEnv_sound toy_accepted
 
 end Example
